@@ -4,6 +4,7 @@ use super::prng::{mix, Rng};
 use std::collections::BTreeMap;
 
 pub mod base;
+pub mod f1;
 pub mod families;
 
 pub fn generate(family: &str, seed: u64, index: u64) -> Option<Plan> {
